@@ -1,7 +1,8 @@
 """C11 — worker pool: hand-off memory orders, condition-variable discipline, handshake ordering.
 
-Decided (DESIGN §5 C11): the synchronisation *discipline* visible in the code shape.  Not decided:
-exactly-once execution / block partition arithmetic (values), absence of every possible deadlock.
+Decided (DESIGN §5 C11): the synchronisation *discipline* visible in the code shape, plus (C11-P1)
+a bounded exhaustive interpretation of the block partition arithmetic.  Not decided: the partition
+beyond the bound, absence of every possible deadlock.
 """
 from ..flow import Walker, State
 from ..sir import pp, strip, walk, calls, AnalysisBroken
@@ -179,7 +180,11 @@ def run(db, chk):
              min_instances=1)
     chk.rule("C11-A7", "handshake order: pause() awaits running jobs before publishing the pause "
              "jobs; stop() resumes a paused pool before joining; run_tasks() starts / resumes "
-             "before publishing", min_instances=3)
+             "before publishing; resume() awaits the job flags after notifying", min_instances=4)
+    chk.rule("C11-P1", "bounded exhaustive interpretation of the block partition arithmetic: for every "
+             "pool size, range and minimum block size within the bound the blocks are disjoint, "
+             "contiguous, non-empty, cover the range exactly and number at most the pool size",
+             min_instances=1)
     chk.rule("C11-A4", "resume() precedes resize() at every call site (shared with C08-B3)",
              min_instances=2)
     for k, v in OWNED_BY_CALLER.items():
@@ -367,6 +372,28 @@ def run(db, chk):
                    function=fn.bn, construct="pause-order",
                    detail="" if ok else "the job vector is re-bound while workers may still "
                    "execute jobs of the previous one")
+    for fn in fns_named("resume"):
+        res = []
+
+        class W8(SeqWalker):
+            def visit(self, node, st):
+                st = SeqWalker.visit(self, node, st)
+                if node.get("k") == "call":
+                    if node.get("bn", "").startswith("std::condition_variable::notify"):
+                        st = st.remove("ev", lambda x: x == "quiet")
+                    elif node.get("bn") == POOL + "::wait":
+                        st = st.add("ev", "quiet")
+                return st
+        w8 = W8(fn, {})
+        w8.run(State({"ev": frozenset({"quiet"})}))
+        for kind, node, st in w8.exits:
+            if kind == "throw":
+                continue
+            ok = st.has("ev", "quiet")
+            chk.ob("C11-A7", "resume(): returns only after wait() saw every job flag cleared", ok,
+                   where=fn.loc(node), function=fn.bn, construct="resume-waits",
+                   detail="" if ok else "a worker that is still finishing its pause job clears its flag "
+                   "later and wipes the flag of the next job: that block is silently never run")
     for fn in fns_named("stop"):
         res = []
         w = SeqWalker(fn, {"join": lambda node, st: res.append((node, st.has("ev", "not_paused")))})
@@ -394,6 +421,56 @@ def run(db, chk):
             chk.ob("C11-A7", "run_tasks(): pool resumed before publishing", ok, where=fn.loc(node),
                    function=fn.bn, construct="run_tasks-order",
                    detail="" if ok else "jobs published to workers still blocked in their pause job")
+
+    # ---- P1: block partition (bounded exhaustive interpretation of pure integer arithmetic) ------
+    from ..interp import Interp, World, Obj, ThrowEx
+    blk = {("<ctor>" if f.is_ctor else f.name): f for f in pool_fns if f.cls == POOL + "::blocks"}
+    for need in ("<ctor>", "start", "end", "num_blocks"):
+        if need not in blk:
+            raise AnalysisBroken("C11-P1: thread_pool::blocks::%s not instantiated" % need)
+    rec = [r for r in blk["start"].unit.records if r["bn"] == POOL + "::blocks"]
+    pmax, tmax, mmax = (12, 40, 10) if chk.tier == "thorough" else (8, 24, 6)
+    bad = []
+    n_cases = 0
+    for pool in range(1, pmax + 1):
+        for total in range(0, tmax + 1):
+            for first in (0, 5):
+                for msz in range(0, mmax + 1):
+                    n_cases += 1
+                    it = Interp(World())
+                    o = it.new_obj(blk["start"], rec[0])
+                    try:
+                        it.call_fn(blk["<ctor>"], o, [first, first + total, pool, msz])
+                        nb = it.rv(it.call_fn(blk["num_blocks"], o, []))
+                        spans = []
+                        for b in range(min(nb, pool)):
+                            spans.append((it.rv(it.call_fn(blk["start"], o, [b])),
+                                          it.rv(it.call_fn(blk["end"], o, [b]))))
+                    except ThrowEx as ex:
+                        bad.append((pool, total, msz, "threw " + ex.text[:40]))
+                        continue
+                    except AnalysisBroken as ex:
+                        if "division by zero" in str(ex):
+                            bad.append((pool, total, msz, "integer division by zero"))
+                            continue
+                        raise
+                    ok = nb <= pool
+                    pos = first
+                    for (a, b) in spans:
+                        if a != pos or b <= a:
+                            ok = False
+                        pos = b
+                    if total > 0 and (pos != first + total or nb < 1):
+                        ok = False
+                    if total == 0 and nb != 0:
+                        ok = False
+                    if not ok and len(bad) < 5:
+                        bad.append((pool, total, msz, "num_blocks %r spans %r" % (nb, spans)))
+    chk.ob("C11-P1", "blocks(first, last, pool size, min size): %d combinations (pool <= %d, range <= %d, "
+           "min size <= %d)" % (n_cases, pmax, tmax, mmax), not bad, where=blk["<ctor>"].ploc,
+           function=blk["<ctor>"].bn, construct="block-partition",
+           detail="" if not bad else "first failing (pool, range, min size): %r" % (bad[0],))
+    chk.count_scenarios(n_cases, True)
 
     # ---- A4 (= C08-B3) ---------------------------------------------------------------------------
     resize_safe = {}
